@@ -913,17 +913,23 @@ def run(ctx):
     rng = ctx.rng
     quick = ctx.quick
     ctx.rule = ("random Hermitian MPOs (Spin12 dense/Z2/U1, SpinlessFermions Z2/U1; nearest-neighbour or long-range, real or "
-                "complex couplings; single MPO or sum of 2-3 MPOs), random initial MPS of every admissible charge, canonical or "
-                "not; 'trace' cases: N=2..8 (quick 2..5), 1-3 sweeps with per-sweep method switches via yastn.Method, precompute "
-                "on/off, 0-2 projectors; 'converge'/'project' cases: N=3..6 at maximal bond dimension, 24 sweeps. Every case "
-                "is run on the real dmrg_ under the run-time monitor, its event trace is diffed with the Lean model and "
-                "stamp-checked, and the dense oracles are evaluated. Non-trivial = every case (distinct by full input).")
+                "complex couplings; single MPO or sum of 2-3 MPOs, each MPO carrying a random real prefactor f_j*MPO_j: unit, "
+                "non-unit, negative, unequal within a sum, magnitudes 0.2..500), random initial MPS of every admissible charge, "
+                "canonical or not; 'trace' cases: N=2..8 (quick 2..5), 1-3 sweeps with per-sweep method switches via "
+                "yastn.Method, precompute on/off, 0-2 random penalised states listed bare (default penalty) or as "
+                "(penalty, state) with penalties 0.1..1000; 'converge' cases: N=3..6 at maximal bond dimension, 24 sweeps "
+                "(3x'2site' then all-'1site' / all-'2site' / random mixture), 0-1 random penalised state; 'project' cases: the "
+                "converged ground state is penalised (bare, (100, state), penalty below the gap, penalty above the gap) and "
+                "the run must reach the lowest level of H + p|psi0><psi0|. Every case is run on the real dmrg_ under the "
+                "run-time monitor, its event trace is diffed with the Lean model and stamp-checked, and the dense oracles "
+                "(with penalties: for H' = H + sum_i p_i|phi_i><phi_i|) are evaluated. Non-trivial = every case (distinct by "
+                "full input).")
     ctx.assumptions += ["local eigensolver (yastn.eigs, Lanczos without restart) and LAPACK QR/SVD are validated numerically, not proved",
                         "dense references: numpy.linalg.eigvalsh / matrix-vector products on to_tensor() embeddings"]
     budget = 55 if quick else 600
     n_trace = 40 if quick else 300
-    n_conv = 6 if quick else 40
-    n_proj = 3 if quick else 16
+    n_conv = 8 if quick else 50
+    n_proj = 5 if quick else 24
     t_start = time.time()
     for i in range(n_trace):
         if time.time() - t_start > budget * 0.55:
